@@ -995,6 +995,10 @@ class Models:
             return isinstance(a, NoneV) and isinstance(b, NoneV)
         if isinstance(a, Num) and isinstance(b, Num):
             return self.truth(CmpV("==", a, b), node)
+        if isinstance(a, ObjV) and isinstance(b, ObjV) and a.ci is not None and self.prog.lookup(a.ci, "__eq__"):
+            if a is b:
+                return True
+            return self.truth(self.compare(ast.Eq, a, b, node), node)
         if type(a) is not type(b):
             return False
         return a is b
